@@ -8,7 +8,7 @@
   result is strictly sorted, and a strictly sorted member list is determined by its lookups.
 -/
 import Cog.Sem.GoEqualsLaws
-namespace Cog.Sem
+namespace Cog.Sem.GoEq
 open Cog.IR Cog.Sem.GoVal
 
 /-! ### sorted member lists -/
@@ -748,4 +748,4 @@ theorem goEquals_of_enc : ∀ (fuel : Nat) (ss : Schemas) (t : Ty) (a b : GoVal)
             (by simpa [timesShared] using ta) al.2 he
     case alias t' => exact ih t' a b ha hb ta al he
 
-end Cog.Sem
+end Cog.Sem.GoEq
